@@ -26,7 +26,7 @@ structure Coherent (F : Fns) (s : St) : Prop where
       d.nac = (s.o.nac.map s.h.cells).map F.symNac ∧
       (d.gonze = none ∨ d.gonze = some (s.h.cells a))
   gv : ∀ g, s.o.gv = some g → s.o.dm = some g.dm
-  disps : ∀ v, s.o.disps = some v → ∃ a, s.o.dataset = some a ∧ v = s.h.cells a
+  disps : ∀ v, s.o.disps = some v → ∃ a, s.o.dataset = some a ∧ v = F.dispOf (s.h.cells a)
 
 theorem kc_next (F : Fns) (fsf : Bool) (h : Heap) (a : ArrRef) : h.next ≤ (keepOrCopy F fsf h a).1.next := by
   unfold keepOrCopy; split <;> (try split) <;> simp [Heap.alloc]
@@ -64,7 +64,7 @@ theorem map_cells_congr {h h' : Heap} (x : Option ArrRef)
   | some a => simp [hc a rfl]
 
 /-- preconditions under which `_set_dynamical_matrix` (re-)establishes coherence -/
-structure Pre (h : Heap) (o : Obj) : Prop where
+structure Pre (F : Fns) (h : Heap) (o : Obj) : Prop where
   allocFc : ∀ a, o.fc = some a → a < h.next
   allocNac : ∀ a, o.nac = some a → a < h.next
   allocDs : ∀ a, o.dataset = some a → a < h.next
@@ -72,7 +72,7 @@ structure Pre (h : Heap) (o : Obj) : Prop where
   kindNac : ∀ a, o.nac = some a → h.kind a = .nac
   kindDs : ∀ a, o.dataset = some a → h.kind a = .ds
   gv : o.gv ≠ none → o.fc ≠ none ∧ o.masses ≠ none
-  disps : ∀ v, o.disps = some v → ∃ a, o.dataset = some a ∧ v = h.cells a
+  disps : ∀ v, o.disps = some v → ∃ a, o.dataset = some a ∧ v = F.dispOf (h.cells a)
 
 theorem gv_none_of {o : Obj} (p7 : o.gv ≠ none → o.fc ≠ none ∧ o.masses ≠ none)
     (h : o.fc = none ∨ o.masses = none) : o.gv = none := by
@@ -84,7 +84,7 @@ theorem gv_none_of {o : Obj} (p7 : o.gv ≠ none → o.fc ≠ none ∧ o.masses 
     | inl h => exact absurd h this.1
     | inr h => exact absurd h this.2
 
-theorem setDM_coherent (F : Fns) (h : Heap) (o : Obj) (hp : Pre h o) :
+theorem setDM_coherent (F : Fns) (h : Heap) (o : Obj) (hp : Pre F h o) :
     Coherent F ⟨(setDM F h o).1, (setDM F h o).2.1⟩ := by
   obtain ⟨p1, p2, p3, p4, p5, p6, p7, p8⟩ := hp
   unfold setDM
@@ -124,10 +124,10 @@ theorem setDM_coherent (F : Fns) (h : Heap) (o : Obj) (hp : Pre h o) :
         obtain ⟨_, _, rfl⟩ := hg; rfl
       · intro v hv
         obtain ⟨r, hr1, hr2⟩ := p8 v hv
-        exact ⟨r, hr1, by rw [hr2]; exact (hcells r (p3 r hr1)).symm⟩
+        exact ⟨r, hr1, by rw [hr2]; exact congrArg F.dispOf (hcells r (p3 r hr1)).symm⟩
 
 /-- the guarded call `if masses is not None: _set_dynamical_matrix()` -/
-theorem setDMIfMasses_coherent (F : Fns) (h : Heap) (o : Obj) (hp : Pre h o)
+theorem setDMIfMasses_coherent (F : Fns) (h : Heap) (o : Obj) (hp : Pre F h o)
     (hn : o.masses = none → o.dm = none) : Coherent F (fin (setDMIfMasses F h o)).1 := by
   unfold setDMIfMasses fin
   cases hm : o.masses with
@@ -140,7 +140,7 @@ theorem setDMIfMasses_coherent (F : Fns) (h : Heap) (o : Obj) (hp : Pre h o)
       fun g h' => by simp [hg] at h', p8⟩
 
 /-- the guarded call `if force_constants is not None: _set_dynamical_matrix()` -/
-theorem setDMIfFc_coherent (F : Fns) (h : Heap) (o : Obj) (hp : Pre h o)
+theorem setDMIfFc_coherent (F : Fns) (h : Heap) (o : Obj) (hp : Pre F h o)
     (hn : o.fc = none → o.dm = none) : Coherent F (fin (setDMIfFc F h o)).1 := by
   unfold setDMIfFc fin
   cases hm : o.fc with
@@ -163,7 +163,7 @@ theorem Coherent.gv_imp {F : Fns} {s : St} (hc : Coherent F s) :
     · intro hf; have := hc.dmNone (Or.inl hf); simp [hd] at this
     · intro hf; have := hc.dmNone (Or.inr hf); simp [hd] at this
 
-theorem Coherent.pre {F : Fns} {s : St} (hc : Coherent F s) : Pre s.h s.o :=
+theorem Coherent.pre {F : Fns} {s : St} (hc : Coherent F s) : Pre F s.h s.o :=
   ⟨hc.allocFc, hc.allocNac, hc.allocDs, hc.kindFc, hc.kindNac, hc.kindDs, hc.gv_imp, hc.disps⟩
 
 /-- coherence only looks at the cells the object references -/
@@ -311,9 +311,29 @@ theorem setDMIfFc_reach (F : Fns) (h : Heap) (o : Obj) {r : ArrRef}
 
 /-- the only pre-existing cell an API operation writes is the object's current force-constant array -/
 theorem step_writes_only_fc (F : Fns) (s : St) (op : Op) (r : ArrRef) (hr : r < s.h.next)
-    (hfc : s.o.fc ≠ some r) (hop : ∀ v, op ≠ .callerMutates r v) :
+    (hfc : s.o.fc ≠ some r) (hds : s.o.dataset ≠ some r) (hop : ∀ v, op ≠ .callerMutates r v) :
     (step F s op).1.h.cells r = s.h.cells r := by
   cases op with
+  | setForces f =>
+    simp only [step]; split
+    · rfl
+    · next ds hd =>
+      have : r ≠ ds := fun e => hds (e ▸ hd)
+      simp [Heap.write, this]
+  | setEnergies f =>
+    simp only [step]; split
+    · rfl
+    · next ds hd =>
+      have : r ≠ ds := fun e => hds (e ▸ hd)
+      simp [Heap.write, this]
+  | produceFcWith f =>
+    simp only [step]; split
+    · rfl
+    · next ds hd =>
+      refine Eq.trans (setDMIfMasses_cells_old F _ _ (r := r) (Nat.lt_succ_of_lt hr)) ?_
+      refine Eq.trans (alloc_cells_old (h := s.h.write ds _) hr) ?_
+      have : r ≠ ds := fun e => hds (e ▸ hd)
+      simp [Heap.write, this]
   | newArr v own k => exact alloc_cells_old hr
   | setFc a => simp only [step]; split <;> simp [setDMIfMasses_cells_old F _ _ hr]
   | produceFc =>
@@ -365,6 +385,13 @@ theorem step_writes_only_fc (F : Fns) (s : St) (op : Op) (r : ArrRef) (hr : r < 
 
 theorem step_next (F : Fns) (s : St) (op : Op) : s.h.next ≤ (step F s op).1.h.next := by
   cases op with
+  | setForces f => simp only [step]; split <;> exact Nat.le_refl _
+  | setEnergies f => simp only [step]; split <;> exact Nat.le_refl _
+  | produceFcWith f =>
+    simp only [step]; split
+    · exact Nat.le_refl _
+    · next ds hd =>
+      exact Nat.le_trans (Nat.le_succ _) (setDMIfMasses_next F ((s.h.write ds _).alloc _ true .fc) _)
   | newArr v own k => exact Nat.le_succ _
   | setFc a => simp only [step]; split <;> simp [setDMIfMasses_next]
   | produceFc =>
@@ -419,6 +446,14 @@ theorem touch_reach {h : Heap} {o : Obj} {d : DMObj} {gv' : Option GVObj} {r : A
 theorem step_reach (F : Fns) (s : St) (op : Op) (r : ArrRef) (hr : Reach (step F s op).1.o r) :
     Reach s.o r ∨ r ∈ op.named ∨ s.h.next ≤ r := by
   cases op with
+  | setForces f => simp only [step] at hr; split at hr <;> exact Or.inl hr
+  | setEnergies f => simp only [step] at hr; split at hr <;> exact Or.inl hr
+  | produceFcWith f =>
+    simp only [step] at hr; split at hr
+    · exact Or.inl hr
+    · rcases setDMIfMasses_reach F _ _ hr with h | h
+      · unfold Reach at h ⊢; simp only [Heap.write] at h; grind
+      · right; right; rw [h]; exact Nat.le_succ _
   | newArr v own k => exact Or.inl hr
   | setFc a =>
     simp only [step] at hr; split at hr
@@ -534,6 +569,14 @@ theorem setDMIfFc_kind_old (F : Fns) (h : Heap) (o : Obj) {r : ArrRef} (hr : r <
 theorem step_kind_old (F : Fns) (s : St) (op : Op) (r : ArrRef) (hr : r < s.h.next) :
     (step F s op).1.h.kind r = s.h.kind r := by
   cases op with
+  | setForces f => simp only [step]; split <;> rfl
+  | setEnergies f => simp only [step]; split <;> rfl
+  | produceFcWith f =>
+    simp only [step]; split
+    · rfl
+    · next ds hd =>
+      refine Eq.trans (setDMIfMasses_kind_old F _ _ (r := r) (Nat.lt_succ_of_lt hr)) ?_
+      exact alloc_kind_old (h := s.h.write ds _) hr
   | newArr v own k => exact alloc_kind_old hr
   | setFc a => simp only [step]; split <;> simp [setDMIfMasses_kind_old F _ _ hr]
   | produceFc =>
@@ -612,6 +655,7 @@ theorem frame_run (F : Fns) (R : List ArrRef) (n0 : Nat) (hR : ∀ r ∈ R, r < 
     refine ⟨fun r hr => ?_, Nat.le_trans (step_next F s op) ih2⟩
     have hlt : r < s.h.next := Nat.lt_of_lt_of_le (hR r hr) hn
     have hc := step_writes_only_fc F s op r hlt (fun h => hreach r hr (Or.inl h))
+      (fun h => hreach r hr (Or.inr (Or.inr (Or.inl h))))
       (fun v h => hnamed op (List.mem_cons_self) r (by rw [h]; simp [Op.named]) hr)
     have hk := step_kind_old F s op r hlt
     exact ⟨(ih1 r hr).1.trans hc, (ih1 r hr).2.trans hk⟩
@@ -645,6 +689,14 @@ just handed to the setter, or a fresh one -/
 theorem step_fc (F : Fns) (s : St) (op : Op) (r : ArrRef) (hr : (step F s op).1.o.fc = some r) :
     s.o.fc = some r ∨ op = .setFc r ∨ s.h.next ≤ r := by
   cases op with
+  | setForces f => simp only [step] at hr; split at hr <;> exact Or.inl hr
+  | setEnergies f => simp only [step] at hr; split at hr <;> exact Or.inl hr
+  | produceFcWith f =>
+    simp only [step] at hr; split at hr
+    · exact Or.inl hr
+    · rcases setDMIfMasses_fc F _ _ hr with h | h
+      · simp only [Option.some.injEq] at h; exact Or.inr (Or.inr (Nat.le_of_eq h))
+      · right; right; rw [h]; exact Nat.le_succ _
   | newArr v own k => exact Or.inl hr
   | setFc a =>
     simp only [step] at hr; split at hr
@@ -715,6 +767,9 @@ theorem setDMIfFc_fsf (F : Fns) (h : Heap) (o : Obj) : (fin (setDMIfFc F h o)).1
 
 theorem step_fsf (F : Fns) (s : St) (op : Op) : (step F s op).1.o.fsf = s.o.fsf := by
   cases op with
+  | setForces f => simp only [step]; split <;> rfl
+  | setEnergies f => simp only [step]; split <;> rfl
+  | produceFcWith f => simp only [step]; split <;> simp [setDMIfMasses_fsf]
   | newArr v own k => rfl
   | setFc a => simp only [step]; split <;> simp [setDMIfMasses_fsf]
   | produceFc => simp only [step]; split <;> simp [setDMIfMasses_fsf]
@@ -757,5 +812,68 @@ theorem setDM_abs (F : Fns) (h : Heap) (o : Obj) (hf : o.fsf = false)
     have e3 : (keepOrCopy F o.fsf h a).1.bumpId.cells (keepOrCopy F o.fsf h a).2 = h.cells a := by
       rw [hf]; exact kc_cells_ref
     simp only [abs, Option.map_some, e1, e2, e3, hfc]
+
+/-! ### the object's dataset is always its own deep copy -/
+theorem setDM_ds (F : Fns) (h : Heap) (o : Obj) : (setDM F h o).2.1.dataset = o.dataset := by
+  unfold setDM; split <;> rfl
+theorem setDMIfMasses_ds (F : Fns) (h : Heap) (o : Obj) : (fin (setDMIfMasses F h o)).1.o.dataset = o.dataset := by
+  unfold setDMIfMasses fin; split
+  · rfl
+  · exact setDM_ds F h o
+theorem setDMIfFc_ds (F : Fns) (h : Heap) (o : Obj) : (fin (setDMIfFc F h o)).1.o.dataset = o.dataset := by
+  unfold setDMIfFc fin; split
+  · rfl
+  · exact setDM_ds F h o
+
+/-- after an operation the stored dataset is the one the object had or a fresh copy — never an
+object of the caller (`dataset.setter` deep-copies) -/
+theorem step_ds (F : Fns) (s : St) (op : Op) (r : ArrRef) (hr : (step F s op).1.o.dataset = some r) :
+    s.o.dataset = some r ∨ s.h.next ≤ r := by
+  cases op with
+  | setForces f => simp only [step] at hr; split at hr <;> exact Or.inl hr
+  | setEnergies f => simp only [step] at hr; split at hr <;> exact Or.inl hr
+  | produceFcWith f =>
+    simp only [step] at hr; split at hr
+    · exact Or.inl hr
+    · rw [setDMIfMasses_ds] at hr; exact Or.inl (by simpa using hr)
+  | newArr v own k => exact Or.inl hr
+  | setFc a =>
+    simp only [step] at hr; split at hr
+    · rw [setDMIfMasses_ds] at hr; exact Or.inl hr
+    · exact Or.inl hr
+  | produceFc =>
+    simp only [step] at hr; split at hr
+    · exact Or.inl hr
+    · rw [setDMIfMasses_ds] at hr; exact Or.inl (by simpa using hr)
+  | symmetrizeFc level =>
+    simp only [step, inPlace] at hr; split at hr
+    · exact Or.inl hr
+    · rw [setDMIfMasses_ds] at hr; exact Or.inl hr
+  | symmetrizeFcSpaceGroup =>
+    simp only [step, inPlace] at hr; split at hr
+    · exact Or.inl hr
+    · rw [setDMIfMasses_ds] at hr; exact Or.inl hr
+  | cutoff c =>
+    simp only [step, inPlace] at hr; split at hr
+    · exact Or.inl hr
+    · rw [setDMIfMasses_ds] at hr; exact Or.inl hr
+  | setNac a =>
+    simp only [step] at hr; split at hr
+    · rw [setDMIfFc_ds] at hr; exact Or.inl hr
+    · split at hr
+      · rw [setDMIfFc_ds] at hr; exact Or.inl hr
+      · exact Or.inl hr
+  | setMasses m => simp only [step] at hr; rw [setDMIfFc_ds] at hr; exact Or.inl hr
+  | setDataset a =>
+    simp only [step] at hr; split at hr
+    · simp at hr
+    · split at hr
+      · simp only [Option.some.injEq] at hr; exact Or.inr (Nat.le_of_eq hr)
+      · exact Or.inl hr
+  | copy => exact Or.inl hr
+  | callerMutates a v => simp only [step] at hr; split at hr <;> exact Or.inl hr
+  | query q =>
+    left
+    cases q <;> simp only [step] at hr <;> (repeat' split at hr) <;> exact hr
 
 end PhononModel.C15
